@@ -258,6 +258,9 @@ func checkFinish(c finishCase, r *h.Rec) error {
 	if err := j.tag(fmt.Sprintf("Write(%d bytes)+Sum after Finish", n2), msg2, 8*n2, s2); err != nil {
 		return err
 	}
+	if err := m.done(); err != nil {
+		return fmt.Errorf("%s, %d bits: %v", algNames[c.K.Alg], c.NBits, err)
+	}
 	return nil
 }
 
@@ -343,7 +346,9 @@ func checkSum(c sumCase, r *h.Rec) error {
 			if err := m.write(g, 0); err != nil {
 				return err
 			}
-			m.m.Reset()
+			if err := m.reset(); err != nil {
+				return err
+			}
 		case 2:
 			if _, err := m.finish(g, 8*len(g)-int(gen.Mix(c.Seed, 97)%8), 0); err != nil {
 				return err
@@ -355,7 +360,9 @@ func checkSum(c sumCase, r *h.Rec) error {
 			if _, err := m.sum(c.Len); err != nil {
 				return err
 			}
-			m.m.Reset()
+			if err := m.reset(); err != nil {
+				return err
+			}
 		}
 	}
 	sumAt := map[int]bool{}
@@ -425,6 +432,16 @@ func checkSum(c sumCase, r *h.Rec) error {
 	}
 	if !bytes.Equal(fin, s1) {
 		return fmt.Errorf("%s, %d bytes: Finish(%s, 0) after Sum = %s, Sum = %s", algNames[c.K.Alg], c.Len, emptyNames[c.Len&3], h.Hex(fin), h.Hex(s1))
+	}
+	// the object is reused once more; everything returned so far must keep its value
+	if err := m.write(gen.Fill(gen.Mix(c.Seed, 94), 21), 0); err != nil {
+		return err
+	}
+	if _, err := m.finish(gen.Fill(gen.Mix(c.Seed, 93), 3), 19, 0); err != nil {
+		return err
+	}
+	if err := m.done(); err != nil {
+		return fmt.Errorf("%s, %d bytes, writes %v: %v", algNames[c.K.Alg], c.Len, c.Parts, err)
 	}
 	return nil
 }
@@ -584,7 +601,9 @@ func checkMACOps(c macOpsCase, r *h.Rec) error {
 			}
 		case "R":
 			ls.add("op:Reset")
-			m.m.Reset()
+			if err := m.reset(); err != nil {
+				return fmt.Errorf("op %d of [%s]: %v", i, c.history(), err)
+			}
 			msg, writes = nil, 0
 		case "F":
 			ls.add("op:Finish")
@@ -627,6 +646,9 @@ func checkMACOps(c macOpsCase, r *h.Rec) error {
 		default:
 			return fmt.Errorf("harness: bad op %q", op.Op)
 		}
+	}
+	if err := m.done(); err != nil {
+		return fmt.Errorf("[%s]: %v", c.history(), err)
 	}
 	r.NTIf(nt)
 	return nil
